@@ -215,6 +215,25 @@ def value_checks_parallel(repo, fr, classes, todo):
     return dict(_worker(x) for x in todo)
 
 
+def check_zero_divide_gate(run, repo):
+    """C09-Z: IntegerZeroDivideTrappingEnabled() = IsARMv7RProfile() && SCTLR.DZ (exact table); the value comparison of SDIV/UDIV
+    treats the gate as a free boolean, so the gate itself is judged here."""
+    from ..machine import Machine
+    m = Machine(repo)
+    res, fi = m.run('ArmV6', 'integer_zero_divide_trapping_enabled')
+    B, it = m.B, m.it
+    want = B.AND(m.cfg('is_armv7r_profile'), m.view('sctlr').bits[19])
+    got = it.truth(res.value, res.returned)
+    d = B.AND(res.returned, B.XOR(got, want))
+    ok = d == 0 and not res.heap
+    run.instance('C09-Z', 'integer_zero_divide_trapping_enabled', obligations=4, ok=ok, sample={'function': fi.qualname})
+    if not ok:
+        from ..machine import describe_witness
+        run.violation('C09-Z', fi.relpath, fi.qualname, 'zero-divide trap gate',
+                      'the divide-by-zero trap must be enabled exactly when the profile is ARMv7-R and SCTLR.DZ is set; e.g. %s' % (
+                          describe_witness(B, B.pick(d)) if d != 0 else 'state written'))
+
+
 def _judge_mutant(run, mrepo, name, ctx):
     ci, encs = ctx['classes'][name]
     mci = mrepo.cls(name)
@@ -259,6 +278,7 @@ def main(repo_path, tier, seed, replay=None):
         if f.func.split('.')[0] in names:
             run.violation('C09-W', f.file, f.func, f.construct, f.message, f.detail)
     run.instance('C09-W', 'widths of results', obligations=len(names), ok=True, sample={'classes': len(names)})
+    check_zero_divide_gate(run, repo)
     controls(run, repo_path, fr, classes)
     if tier == 'thorough':
         from ..selftest import run_selftest
